@@ -11,12 +11,17 @@ package main
 
 import (
 	"context"
+	"crypto/ecdsa"
+	"crypto/elliptic"
+	"crypto/rand"
+	"crypto/x509"
 	"flag"
 	"fmt"
 	"os"
 	"os/exec"
 	"path/filepath"
 	"regexp"
+	"runtime"
 	"sort"
 	"strings"
 	"sync"
@@ -25,10 +30,12 @@ import (
 
 	"github.com/smallstep/linkedca"
 	"go.step.sm/crypto/jose"
+	"go.step.sm/crypto/minica"
 
 	"github.com/smallstep/certificates/authority"
 	"github.com/smallstep/certificates/authority/config"
 	"github.com/smallstep/certificates/authority/provisioner"
+	"github.com/smallstep/certificates/scep"
 	c "verif/harness/common"
 	"verif/harness/fixture"
 )
@@ -36,8 +43,29 @@ import (
 type probe struct{ what, got, want string }
 
 func workload(seconds int, probesOut string) error {
+	// key material is made here so that a SCEP authority (which calls back into the certificate
+	// authority for its provisioners) can be configured on the same chain
+	mca, err := minica.New(minica.WithName("Verif"))
+	if err != nil {
+		return err
+	}
+	jwk0, err := jose.GenerateJWK("EC", "P-256", "ES256", "sig", "", 0)
+	if err != nil {
+		return err
+	}
+	if jwk0.KeyID, err = jose.Thumbprint(jwk0); err != nil {
+		return err
+	}
+	sshU, _ := ecdsa.GenerateKey(elliptic.P256(), rand.Reader)
+	sshH, _ := ecdsa.GenerateKey(elliptic.P256(), rand.Reader)
 	ca, err := fixture.New(fixture.Opts{
-		SSH: true,
+		SSH:  true,
+		From: &fixture.CA{MiniCA: mca, JWK: jwk0, SSHUser: sshU, SSHHost: sshH},
+		Provisioners: provisioner.List{&provisioner.SCEP{Type: "SCEP", Name: "scep", ChallengePassword: "secret",
+			MinimumPublicKeyLength: 2048, EncryptionAlgorithmIdentifier: 2}},
+		Extra: []authority.Option{authority.WithFullSCEPOptions(&scep.Options{
+			Roots: []*x509.Certificate{mca.Root}, Intermediates: []*x509.Certificate{mca.Intermediate},
+			SignerCert: mca.Intermediate, Signer: mca.Signer, SCEPProvisionerNames: []string{"scep"}})},
 		CRL: &config.CRLConfig{Enabled: true, GenerateOnRevoke: true, CacheDuration: &provisioner.Duration{Duration: time.Hour}},
 		Config: func(cfg *config.Config) {
 			cfg.AuthorityConfig.EnableAdmin = true
@@ -183,6 +211,18 @@ func workload(seconds int, probesOut string) error {
 						addProbe(probe{"provisioner-updated", "present", "present"})
 					}
 				}
+				// rename it: the old name stops answering, the new one answers (the rename reloads the
+				// administrative state under the write lock, SCEP authority revalidation included)
+				old := name
+				name = name + "r"
+				lp.Name = name
+				if err := a.UpdateProvisioner(ctx, lp); err == nil {
+					addProbe(probe{"provisioner-renamed new-name", cls(sign("a.allowed.test", jwk, name)), "issued"})
+					addProbe(probe{"provisioner-renamed old-name", cls(sign("a.allowed.test", jwk, old)), "refused"})
+				} else {
+					name = old
+					lp.Name = old
+				}
 				// an ordinary administrator on that provisioner
 				na := &linkedca.Admin{ProvisionerId: lp.Id, Subject: "ops", Type: linkedca.Admin_ADMIN}
 				if err := a.StoreAdmin(ctx, na, mustProv(a, lp.Id)); err == nil {
@@ -259,7 +299,34 @@ func workload(seconds int, probesOut string) error {
 
 	time.Sleep(time.Duration(seconds) * time.Second)
 	close(stop)
-	wg.Wait()
+	// every goroutine finishes its current operation and returns; one that does not is blocked for good
+	// (a lock taken twice on one goroutine, a lock never released)
+	blocked := false
+	done := make(chan struct{})
+	go func() { wg.Wait(); close(done) }()
+	select {
+	case <-done:
+		addProbe(probe{"liveness all operations returned", "returned", "returned"})
+	case <-time.After(120 * time.Second):
+		buf := make([]byte, 1<<20)
+		buf = buf[:runtime.Stack(buf, true)]
+		where := "?"
+		for _, blk := range strings.Split(string(buf), "\n\n") {
+			if strings.Contains(blk, "sync.(*RWMutex)") || strings.Contains(blk, "sync.(*Mutex)") {
+				for _, l := range strings.Split(blk, "\n") {
+					if strings.HasPrefix(l, "github.com/smallstep/certificates/") {
+						where = strings.TrimPrefix(strings.SplitN(l, "(", 2)[0], "github.com/smallstep/certificates/")
+						break
+					}
+				}
+				if where != "?" {
+					break
+				}
+			}
+		}
+		addProbe(probe{"liveness all operations returned", "blocked-at:" + where, "returned"})
+		blocked = true
+	}
 
 	f, err := os.Create(probesOut)
 	if err != nil {
@@ -281,6 +348,11 @@ func workload(seconds int, probesOut string) error {
 	})
 	for _, p := range keys {
 		fmt.Fprintf(f, "probe\t%s\t%s\t%s\t%d\n", p.what, p.got, p.want, agg[p])
+	}
+	if blocked {
+		// closing the authority would block behind the same lock
+		f.Close()
+		os.Exit(0)
 	}
 	return nil
 }
